@@ -293,7 +293,55 @@ def lib_shape():
     }
 
 
-LIBS = {"core": lib_core, "ver": lib_ver, "shape": lib_shape}
+def lib_plug():
+    """sockets and plugs for C10: overlapping export names, exact and semver-compatible versioned
+    names, type-compatible and incompatible same-named items, plugs with no match / own imports"""
+    Ix = inst(x=fA)
+    Iy = inst(y=fA)
+    Ixy = inst(x=fA, y=fA)
+    return {
+        "name": "plug",
+        "pkgs": {
+            "s1": {"name": "sock:one", "version": None, "imports": [("a", fA), ("b", fB), ("ns:p/i@0.2.0", Ix)], "exports": [("out", fA)]},
+            "s2": {"name": "sock:two", "version": "1.0.0", "imports": [("ns:p/i@0.2.0", Ix), ("ns:p/i@0.2.1", Ix), ("ns:p/j@1.0.0", Iy)], "exports": [("out", fA), ("ns:q/o@1.0.0", Ixy)]},
+            "g1": {"name": "plug:g1", "version": None, "imports": [], "exports": [("a", fA)]},
+            "g2": {"name": "plug:g2", "version": None, "imports": [], "exports": [("a", fB), ("b", fB)]},
+            "g3": {"name": "plug:g3", "version": None, "imports": [], "exports": [("ns:p/i@0.2.1", Ixy)]},
+            "g4": {"name": "plug:g4", "version": "0.3.0", "imports": [], "exports": [("ns:p/i@0.2.0", Ix), ("ns:p/j@1.2.0", Ixy)]},
+            "g5": {"name": "plug:g5", "version": None, "imports": [("a", fA)], "exports": [("zzz", fA)]},
+            "g6": {"name": "plug:g6", "version": None, "imports": [("w", fB)], "exports": [("a", fA)]},
+        },
+        "kinds": {"fA": fA},
+        "import_names": ["k"],
+        "export_names": ["e1"],
+        "def_names": [],
+        "valid_names": ["k", "e1"],
+        "deftypes": {},
+        "sockets": ["s1", "s2"],
+        "plugs": ["g1", "g2", "g3", "g4", "g5", "g6"],
+    }
+
+
+def lib_det():
+    """C16: the definable types of spec/MC_Det.tla (a base type with two independent dependants
+    and a second-level dependant) plus a package whose instantiation leaves several implicit imports"""
+    return {
+        "name": "det",
+        "pkgs": {
+            "pm": {"name": "test:many", "version": None,
+                   "imports": [("i1", fA), ("i2", fB), ("i3", fA), ("i4", fB)],
+                   "exports": [("o1", fA), ("o2", fA), ("o3", fB), ("o4", fB)]},
+        },
+        "kinds": {"fA": fA},
+        "import_names": ["k1", "k2", "k3"],
+        "export_names": ["e1", "e2", "e3", "e4"],
+        "def_names": ["t1", "t2", "t3", "t4"],
+        "valid_names": ["k1", "k2", "k3", "e1", "e2", "e3", "e4", "t1", "t2", "t3", "t4"],
+        "deftypes": {"tb": ("value", []), "td": ("value", ["tb"]), "tx": ("value", ["tb"]), "tc": ("value", ["td"])},
+    }
+
+
+LIBS = {"core": lib_core, "ver": lib_ver, "shape": lib_shape, "plug": lib_plug, "det": lib_det}
 
 
 def emit(lib):
@@ -321,6 +369,8 @@ def emit(lib):
         allnames |= {n for n, _ in v["imports"]} | {n for n, _ in v["exports"]}
     t.append(f"L_{name}_NameInfo == " + tla_fun({n: name_info(n) for n in sorted(allnames)}, lambda x: x))
     t.append(f"L_{name}_DefDeps == " + tla_fun({k: v[1] for k, v in lib["deftypes"].items()}, lambda xs: tla_set(xs)))
+    t.append(f"L_{name}_Sockets == {tla_set(lib.get('sockets', []))}")
+    t.append(f"L_{name}_Plugs == {tla_set(lib.get('plugs', []))}")
     t.append("====")
     with open(os.path.join(ROOT, "spec", f"Lib_{name}.tla"), "w") as f:
         f.write("\n".join(t) + "\n")
@@ -340,6 +390,8 @@ def emit(lib):
         },
         "kinds": {k: kind_json(v) for k, v in lib["kinds"].items()},
         "kinds_wat": kinds_package(lib["kinds"]),
+        "sockets": lib.get("sockets", []),
+        "plugs": lib.get("plugs", []),
         "names": {"import": lib["import_names"], "export": lib["export_names"], "def": lib["def_names"]},
         "deftypes": {k: {"class": v[0], "deps": v[1]} for k, v in lib["deftypes"].items()},
     }
@@ -354,7 +406,7 @@ def emit_table():
     (TLC re-evaluates a definition reached through a cfg override `C <- Def` on every reference;
     a table looked up from a constant-level definition is evaluated once.)"""
     fields = ["Pkgs", "PkgKey", "PkgImports", "PkgExports", "Kinds", "ImportNames", "ExportNames",
-              "DefNames", "ValidNames", "DefClass", "DefDeps", "NameInfo"]
+              "DefNames", "ValidNames", "DefClass", "DefDeps", "NameInfo", "Sockets", "Plugs"]
     t = ["---- MODULE Libs ----", "\\* GENERATED by lib/universe.py -- do not edit",
          "EXTENDS TLC, " + ", ".join(f"Lib_{n}" for n in LIBS)]
     rows = []
